@@ -710,7 +710,24 @@ def parseExtras (prop : String) (c : ParseCtx) (v : Verdict) : R Verdict := do
                     ("sym", encRange cst.2.2.1), ("full", encRange cst.2.2.2), ("first", e.first), ("last_end", e.lastEnd)])
         | none => exact := false
     | none => pure ()
-    v := v.addSpec "C04" (wf && exact)
+    -- a name range spans exactly the name as written: whatever the input (well-formed, mutated, recovered), it
+    -- neither begins nor ends with white space or a comment delimiter
+    let isEdgeBad (ch : Char) : Bool :=
+      ch = ' ' || ch = '\t' || ch = '\n' || ch = '\r' || ch = '/' || ch.toNat = 0x0B || ch.toNat = 0x0C || ch.toNat = 0x85
+        || ch.toNat = 0xA0 || ch.toNat = 0x1680 || (0x2000 ≤ ch.toNat && ch.toNat ≤ 0x200A) || ch.toNat = 0x2028
+        || ch.toNat = 0x2029 || ch.toNat = 0x202F || ch.toNat = 0x205F || ch.toNat = 0x3000
+    let edgesOk := c.stage1.all fun fr =>
+      match fr.ast, c.files.lookup fr.id with
+      | some a, some text =>
+        (Spec.PL.constructs a).all fun cst =>
+          let r := cst.2.2.1
+          if r.start.off < r.stop.off then
+            let sl := (sliceText text r.start.off r.stop.off).toList
+            !(sl.head?.map isEdgeBad |>.getD false) && !(sl.getLast?.map isEdgeBad |>.getD false)
+          else true
+      | _, _ => true
+    v := v.addSpec "C04" (wf && exact && edgesOk)
+    if !edgesOk then v := v.addDetail "C04_edges" (Json.str "a name range begins or ends with white space or a comment delimiter")
     if !wf then v := v.addDetail "C04" (Json.str "ill-formed or badly nested range")
     let nr := (c.stage1.map fun fr => (fr.ast.map Spec.PL.allRanges |>.getD []).length + (Spec.PL.diagRanges fr.diags).length).foldl (· + ·) 0
     v := { v with nontrivial := nr > 0, dist := bump v.dist s!"ranges~{min (nr / 20 * 20) 200}" }
